@@ -219,6 +219,8 @@ def _judge(args):
     if "C02" in want and is_agg:
         # the input given as async iterator, list, or one-shot iterator
         flavours = [{"src": f, "call": "asyncdef"} for f in ("cls", "list", "iter")]
+        if any(e["ev"] == "call" for e in case["log"]):
+            flavours.append({"src": "cls", "call": "def"})      # key / function given as a plain synchronous callable
     if "C19" in want:
         # the shapes of the quantifier: list / iterator / async iterator, every callable flavour
         fault_kinds = ["exc", "typeerr"] if kind == "fault" else ["exc"]
